@@ -57,6 +57,9 @@ def ob_deadline(h: int, t0: int, e: int, x: int) -> bool:
     mark = w.mark()
     if ev in ('ka', 'upd', 'rr'):
         SC.inject(w, ev, 1, 1, 0)
+    elif ev in ('upd_bad', 'upd_trunc'):
+        # an UPDATE the agent tolerates (reported as malformed, session kept) is still a message from the peer
+        SC.inject(w, ev, 7, 0, 0)
     elif ev == 'kat':
         w.ev_fire('keepalive')
     elif ev == 'holdt':
@@ -69,8 +72,8 @@ def ob_deadline(h: int, t0: int, e: int, x: int) -> bool:
         # H = 0: no periodic keepalives, silence never ends the session: no session timer may be armed
         return w.state == (S.ESTABLISHED if ev != 'rr' or state == S.ESTABLISHED else state) and \
             not w.timer_active('hold') and not w.timer_active('keepalive') and obs['writes'] == [] and obs['close'] == 0
-    if ev in ('ka', 'upd'):
-        if ev == 'upd' and state != S.ESTABLISHED:
+    if ev in ('ka', 'upd', 'upd_bad', 'upd_trunc'):
+        if ev != 'ka' and state != S.ESTABLISHED:
             return True
         return w.state == S.ESTABLISHED and w.timer_active('hold') and eq(w.timer_deadline('hold'), now + h) and \
             w.timer_active('keepalive') and eq(w.timer_deadline('keepalive'), ka_dl0) and obs['writes'] == []
@@ -230,7 +233,7 @@ def ob_schedule(h: int, g1: int, g2: int, g3: int, tie: bool) -> bool:
 def obligations(tier, seed):
     quick = tier == 'quick'
     out = []
-    for state, evs in ((S.ESTABLISHED, ['ka', 'upd', 'rr', 'kat', 'holdt']), (S.OPENCONFIRM, ['ka', 'kat', 'holdt'])):
+    for state, evs in ((S.ESTABLISHED, ['ka', 'upd', 'upd_bad', 'upd_trunc', 'rr', 'kat', 'holdt']), (S.OPENCONFIRM, ['ka', 'kat', 'holdt'])):
         for ev in evs:
             out.append(ob('C03/deadline/%s/%s' % (S.STATE_NAMES[state], ev), 'ob_deadline', {'state': state, 'ev': ev},
                           covers=['stepped']))
